@@ -180,7 +180,16 @@ func (s *fileSeedSegment) WriteInto(dst *os.File, offset, length, blocksize uint
 // Validate compares all chunks in this slice of the seed index to the underlying data
 // and fails if they don't match.
 func (s *fileSeedSegment) Validate(file *os.File) error {
+	info, err := file.Stat()
+	if err != nil {
+		return err
+	}
 	for _, c := range s.chunks {
+		// The sizes come from the seed's index file. Don't allocate what it
+		// says before knowing the file (not a device) can hold that chunk.
+		if size := uint64(info.Size()); info.Mode().IsRegular() && (c.Start > size || c.Size > size-c.Start) {
+			return fmt.Errorf("seed index for %s doesn't match its data", s.file)
+		}
 		b := make([]byte, c.Size)
 		if _, err := file.ReadAt(b, int64(c.Start)); err != nil {
 			return err
